@@ -371,8 +371,17 @@ impl RADAU {
             scal[i] = atol[i] + rtol[i] * y[i].abs();
         }
 
+        #[cfg(ivp_verif)]
+        crate::verif_hooks::trace("init", &[h, hmax, hmin, newton_tol, facl, facr, cfac, posneg, last as u8 as Float, evals.ode as Float]);
+
         // --- Main integration loop ---
         'main: loop {
+            #[cfg(ivp_verif)]
+            crate::verif_hooks::trace("pass", &[
+                x, h, hhfac, call_jac as u8 as Float, call_decomp as u8 as Float, first as u8 as Float, reject as u8 as Float,
+                last as u8 as Float, singular_count as Float, faccon, dynold, thqold, h_acc, err_acc,
+                steps.total as Float, steps.accepted as Float, steps.rejected as Float, evals.ode as Float, evals.jac as Float, evals.lu as Float,
+            ]);
             if call_jac {
                 // Jacobian and mass at (x, y)
                 f.jac(x, &y, &mut jac);
@@ -396,6 +405,8 @@ impl RADAU {
                 // LU decomp of real matrix E1
                 evals.lu += 1;
                 if lu_decomp(&mut e1, &mut ip1).is_err() {
+                    #[cfg(ivp_verif)]
+                    crate::verif_hooks::trace("dec", &[1.0]);
                     singular_count += 1;
                     if singular_count > 5 {
                         status = Status::SingularMatrix;
@@ -411,6 +422,8 @@ impl RADAU {
                 // LU decomp of complex matrix E2
                 evals.lu += 1;
                 if lu_decomp_complex(&mut e2r, &mut e2i, &mut ip2).is_err() {
+                    #[cfg(ivp_verif)]
+                    crate::verif_hooks::trace("dec", &[2.0]);
                     singular_count += 1;
                     if singular_count > 5 {
                         status = Status::SingularMatrix;
@@ -564,6 +577,8 @@ impl RADAU {
                     dyno += v1 * v1 + v2 * v2 + v3 * v3;
                 }
                 dyno = (dyno / (3.0 * n as Float)).sqrt();
+                #[cfg(ivp_verif)]
+                crate::verif_hooks::trace("newt", &[newt_iter as Float, dyno]);
 
                 // Bad convergence or number of iterations is too large
                 if newt_iter > 1 && newt_iter < max_newton {
@@ -652,6 +667,8 @@ impl RADAU {
             err = (err / n as Float).sqrt();
             // A NaN estimate must reject the step (Float::max would silently drop the NaN)
             err = if err.is_nan() { Float::INFINITY } else { err.max(1e-10) };
+            #[cfg(ivp_verif)]
+            crate::verif_hooks::trace("err", &[err]);
 
             // Optional refinement on first/rejected step
             if err >= 1.0 && (first || reject) {
@@ -675,6 +692,8 @@ impl RADAU {
                 }
                 err = (err / n as Float).sqrt();
                 err = if err.is_nan() { Float::INFINITY } else { err.max(1e-10) };
+                #[cfg(ivp_verif)]
+                crate::verif_hooks::trace("err2", &[err]);
             }
 
             // --- Computation of hnew ---
@@ -806,6 +825,10 @@ impl RADAU {
             }
         }
 
+        #[cfg(ivp_verif)]
+        crate::verif_hooks::trace("end", &[
+            h, x, steps.total as Float, steps.accepted as Float, steps.rejected as Float, evals.ode as Float, evals.jac as Float, evals.lu as Float,
+        ]);
         Ok(IntegrationResult::new(h, status, evals, steps))
     }
 
